@@ -17,6 +17,7 @@ structure St where
   sro : Bool := false             -- stream input is read-only
   cfresh : Bool := false          -- connection opened, nothing sent or handled yet
   cdgram : Bool := false          -- the connection is a datagram socket
+  cremote : Bool := false         -- the connection lives inside an mpt_output_remote() object
   -- stream-backed connection: id width when open, lazily created reply context, handle tokens in use,
   -- spec: unanswered requests moved to handles, transport reachable
   cw : Option Nat := none
@@ -281,13 +282,58 @@ def conAnswer (st : St) (idlen : Nat) (data : List Byte) : St × String :=
   | _ => ({ st with cpend := cpend' }, s!"R {r0} | C - | I next=1 disp=131072 | S {r0} ; {sC}")
 
 
+def parseFrames (idlen : Nat) (s : String) : Option (List (List Byte)) :=
+  let parts := s.splitOn ","
+  if parts.length > 16 ∨ parts.any (· = "") then none else
+  match parts.mapM parseHex with
+  | some fs => if fs.any (fun f => f.length > 1000 ∨ f.length < idlen) then none else some fs
+  | none => none
+
+/-- section `tag` ("C", "S", ..) of a driver line -/
+def lineSection (ln tag : String) : String :=
+  match (ln.splitOn " | ").find? (·.startsWith (tag ++ " ")) with
+  | some p => (p.drop (tag.length + 1)).toString
+  | none => "-"
+
+/-- replies dispatched one by one (`conAnswer`): joined code/model calls and spec calls -/
+def conAnswers (st : St) (idlen : Nat) (fs : List (List Byte)) : St × List String × List String :=
+  fs.foldl (fun (acc : St × List String × List String) m =>
+    let r := conAnswer acc.1 idlen m
+    let c := lineSection r.2 "C"
+    let sp := match (lineSection r.2 "S").splitOn " ; " with
+      | [_, x] => x
+      | _ => "-"
+    (r.1, if c = "-" then acc.2.1 else acc.2.1 ++ [c], if sp = "-" then acc.2.2 else acc.2.2 ++ [sp])) (st, [], [])
+
+def joinCalls (l : List String) : String := if l.isEmpty then "-" else ",".intercalate l
+
 def stepC0 (st : St) (w : List String) : St × String :=
   match w with
+  | ["c", "probe"] =>
+    if st.cw.isSome ∧ st.cremote then
+      let t := "ok fmt=oul,me meta=same,1 sock=same,me input=same,1 unknown=BadType obj=same,me out=same,me log=same,me noptr=ok clone=no ref=2 prop=output"
+      (st, s!"R {t} | C - | I ret=0 | S {t} ; -")
+    else (st, "bad-op")
+  | ["c", "open", n, "remote"] =>
+    -- the connection lives inside an mpt_output_remote() object, ops go through its input/output interfaces
+    match n.toNat? with
+    | some idlen =>
+      if idlen > 255 then (st, "bad-op") else
+      ({ st with sin := none, cw := some idlen, cdgram := false, cremote := true, cc := none, clive := [], cheld := [], cwait := none, ccid := 0, cpend := [] },
+       "R ok | C - | I ret=0 | S ok ; -")
+    | none => (st, "bad-op")
+  | ["c", "open", n, "rdgram"] =>
+    match n.toNat? with
+    | some idlen =>
+      if idlen > 255 then (st, "bad-op") else
+      ({ st with sin := none, cw := some idlen, cdgram := true, cremote := true, cc := none, clive := [], cheld := [], cwait := none, ccid := 0, cpend := [] },
+       "R ok | C - | I ret=0 | S ok ; -")
+    | none => (st, "bad-op")
   | ["c", "open", n] =>
     match n.toNat? with
     | some idlen =>
       if idlen > 255 then (st, "bad-op") else
-      ({ st with sin := none, cw := some idlen, cdgram := false, cc := none, clive := [], cheld := [], cwait := none, ccid := 0, cpend := [] },
+      ({ st with sin := none, cw := some idlen, cdgram := false, cremote := false, cc := none, clive := [], cheld := [], cwait := none, ccid := 0, cpend := [] },
        "R ok | C - | I ret=0 | S ok ; -")
     | none => (st, "bad-op")
   | ["c", "open", n, "dgram"] =>
@@ -295,7 +341,7 @@ def stepC0 (st : St) (w : List String) : St × String :=
     match n.toNat? with
     | some idlen =>
       if idlen > 255 then (st, "bad-op") else
-      ({ st with sin := none, cw := some idlen, cdgram := true, cc := none, clive := [], cheld := [], cwait := none, ccid := 0, cpend := [] },
+      ({ st with sin := none, cw := some idlen, cdgram := true, cremote := false, cc := none, clive := [], cheld := [], cwait := none, ccid := 0, cpend := [] },
        "R ok | C - | I ret=0 | S ok ; -")
     | none => (st, "bad-op")
   | ["c", "req", h, "discard"] =>
@@ -370,7 +416,6 @@ def stepC0 (st : St) (w : List String) : St × String :=
        s!"R {if ret < 0 then "refused" else "ok"} | C {fmtFrames frames} | I ret={errName ret} | S {fmtA}")
     | _, _, _ => (st, "bad-op")
   | ["c", "await", t] =>
-    if st.cdgram ∧ st.cw.isSome then (st, "bad-op") else
     match st.cw, t.toNat? with
     | some idlen, some tag =>
       if tag > 1000000 then (st, "bad-op") else
@@ -384,13 +429,13 @@ def stepC0 (st : St) (w : List String) : St × String :=
       | none => (st, s!"R refused | C - | I ret=BadValue | S {if idlen = 0 then "refused ; -" else "ok id=<fresh> ; -"}")
     | _, _ => (st, "bad-op")
   | ["c", "send", h] =>
-    if st.cdgram ∧ st.cw.isSome then (st, "bad-op") else
     match st.cw, parseHex h with
     | some idlen, some data =>
       if data.length > 1000 then (st, "bad-op") else
       match (if idlen = 0 then some [] else ReplySpec.encode st.ccid idlen) with
       | some hdr =>
-        ({ st with ccid := 0 }, s!"R ok | C frame[{toHex (hdr ++ data)}] | I ret={data.length},0 | S ok ; frame[{toHex (hdr ++ data)}]")
+        -- a datagram send reports the bytes sent
+        ({ st with ccid := 0 }, s!"R ok | C frame[{toHex (hdr ++ data)}] | I ret={data.length},{if st.cdgram then (hdr ++ data).length else 0} | S ok ; frame[{toHex (hdr ++ data)}]")
       | none => (st, "R refused | C - | I ret=-1,-1 | S refused ; -")
     | _, _ => (st, "bad-op")
   | ["c", "close"] =>
@@ -409,9 +454,56 @@ def stepC0 (st : St) (w : List String) : St × String :=
   | _ => (st, "bad-op")
 
 
+/-- messages dispatched without handler one by one (`c req <m> discard`): joined code/model output and spec output -/
+def conDiscards (st : St) (fs : List (List Byte)) : St × List String × List String :=
+  fs.foldl (fun (acc : St × List String × List String) m =>
+    let r := stepC0 acc.1 ["c", "req", if m.isEmpty then "-" else toHex m, "discard"]
+    let c := lineSection r.2 "C"
+    let sp := match (lineSection r.2 "S").splitOn " ; " with
+      | [_, x] => x
+      | _ => "-"
+    (r.1, if c = "-" then acc.2.1 else acc.2.1 ++ [c], if sp = "-" then acc.2.2 else acc.2.2 ++ [sp])) (st, [], [])
+
+/-- `c sync <frames>`: the peer sends the frames, the waiting commands are synced (mpt_stream_sync / the output object's
+    sync) until nothing moves, what sync left in the input is dispatched without handler -/
+def cSync (st : St) (f : String) : St × String :=
+  match st.cw with
+  | some idlen =>
+    if idlen = 0 ∨ (st.cdgram ∧ !st.cremote) then (st, "bad-op") else
+    match parseFrames idlen f with
+    | some fs =>
+      if !st.cdgram ∧ fs.any (fun m => (m.headD 0).toNat < 128) then (st, "bad-op") else
+      if st.cdgram then
+        -- datagram socket (output_remote.c): every reply datagram is looked up, delivered and released on its own; a
+        -- datagram that is no reply ends the sync, it and everything behind it is then dispatched without handler
+        let isReply := fun (m : List Byte) => decide ((m.headD 0).toNat ≥ 128)
+        let (st', cs, ss) := conAnswers st idlen (fs.takeWhile isReply)
+        let (st2, cd, sd) := conDiscards st' (fs.dropWhile isReply)
+        -- a datagram that is no reply: sync reports how many commands still wait
+        let nw := (Requester.active (st'.cwait.getD [])).length
+        let ok := if (fs.dropWhile isReply).isEmpty ∨ nw = 0 then "ok" else s!"ok waiting={nw}"
+        let sok := if (fs.dropWhile isReply).isEmpty ∨ st'.cpend.isEmpty then "ok" else s!"ok waiting={st'.cpend.length}"
+        (st2, s!"R {ok} | C {joinCalls (cs ++ cd)} | I ret=0 | S {sok} ; {joinCalls (ss ++ sd)}")
+      else
+        let n := fs.length + 2
+        let x0 : Requester.St := { idlen := idlen, arr := st.cwait, cid := st.ccid, inq := fs }
+        let (x', calls) := (List.range n).foldl (fun (acc : Requester.St × List Requester.Call) _ =>
+          let r := Requester.sync failingTag Requester.noFollow acc.1
+          (r.1, acc.2 ++ r.2)) (x0, [])
+        let sp0 : ReplySpec.ReqSt := { w := idlen, pending := st.cpend, cur := st.ccid, inq := fs }
+        let (sp', scalls) := (List.range n).foldl (fun (acc : ReplySpec.ReqSt × List (Option Nat × List Byte)) _ =>
+          ReplySpec.awaitReplies failingTag (acc.1.inq.length + 1) acc.1.inq acc.1 acc.2) (sp0, [])
+        let fmtM := calls.map fun c => s!"hr{c.tag.getD 0}({toHex (c.msg.getD [])})"
+        let fmtS := scalls.map fun c => s!"hr{c.1.getD 0}({toHex c.2})"
+        let st1 := { st with cwait := x'.arr, cpend := sp'.pending }
+        let (st2, cs, ss) := conAnswers st1 idlen x'.inq
+        (st2, s!"R ok | C {joinCalls (fmtM ++ cs)} | I ret=0 | S ok ; {joinCalls (fmtS ++ ss)}")
+    | none => (st, "bad-op")
+  | none => (st, "bad-op")
+
 /-- `cfresh`: true from `c open` until the first line that may write to the connection's stream -/
 def stepC (st : St) (w : List String) : St × String :=
-  let (st', ln) := stepC0 st w
+  let (st', ln) := (match w with | ["c", "sync", f] => cSync st f | _ => stepC0 st w)
   if ln = "bad-op" then (st', ln) else
   match w with
   | ["c", "open", _] => ({ st' with cfresh := true }, ln)
@@ -429,13 +521,6 @@ def fmtCallsX (l : List Requester.Call) : String :=
   if l.isEmpty then "-" else ",".intercalate (l.map fun c => fmtCall c.tag c.msg)
 def fmtCallsS (l : List (Option Nat × List Byte)) : String :=
   if l.isEmpty then "-" else ",".intercalate (l.map fun c => fmtCall c.1 (some c.2))
-
-def parseFrames (idlen : Nat) (s : String) : Option (List (List Byte)) :=
-  let parts := s.splitOn ","
-  if parts.length > 16 ∨ parts.any (· = "") then none else
-  match parts.mapM parseHex with
-  | some fs => if fs.any (fun f => f.length > 1000 ∨ f.length < idlen) then none else some fs
-  | none => none
 
 def waitingOf (s : Requester.St) : Nat := (Requester.active (s.arr.getD [])).length
 
@@ -510,6 +595,17 @@ def stepX (st : St) (w : List String) : St × String :=
         | some fs =>
           let (x', calls) := Requester.drainF followTag (x.inq ++ fs) x []
           let (sp0, scalls) := ReplySpec.deliverAll (sp.inq ++ fs) sp []
+          let (sp', complaint) := specFollow x' sp0 scalls
+          ({ st with xr := some x', xs := sp' },
+           s!"R ok | C {fmtCallsX calls} | I ret=0 rounds=0 waiting={waitingOf x'} | S ok ; {fmtCallsS scalls}{complaint}")
+        | none => (st, "bad-op")
+      | "sync1", [f] =>
+        -- one call of sync
+        match parseFrames x.idlen f with
+        | some fs =>
+          let (x', calls) := Requester.sync failingTag followTag { x with inq := x.inq ++ fs }
+          let spi := sp.inq ++ fs
+          let (sp0, scalls) := ReplySpec.awaitReplies failingTag (spi.length + 1) spi sp []
           let (sp', complaint) := specFollow x' sp0 scalls
           ({ st with xr := some x', xs := sp' },
            s!"R ok | C {fmtCallsX calls} | I ret=0 rounds=0 waiting={waitingOf x'} | S ok ; {fmtCallsS scalls}{complaint}")
